@@ -33,6 +33,7 @@ DEPS = {
     "C01": ["util", "fourier", "conv", "wavelet", "interpw"], "C02": ["util", "fourier", "conv", "wavelet", "interpw"],
     "C03": ["util", "fourier", "conv", "wavelet", "interpw"], "C04": ["util", "fourier", "conv", "wavelet", "interpw", "lls", "alg"],
     "C05": ["util"], "C06": ["util", "interp", "interpw"], "C10": ["util"], "C11": ["util"],
+    "C12": ["util"], "C13": ["prox", "util"],
     "C14": ["alg", "prox", "linop_table", "linop_apply"], "C15": ["lls"],
     "C16": ["alg", "lls", "prox", "linop_table", "linop_apply", "fourier", "wavelet"],
     "C17": ["alg", "util", "block", "fourier"],
